@@ -128,6 +128,27 @@ impl FailureDetector {
     }
 }
 
+#[cfg(feature = "verif")]
+impl FailureDetector {
+    /// Verification hook (read-only): for every tracked node, the number of interval samples in its
+    /// window, their sum in seconds, and the seconds elapsed since its last reported heartbeat.
+    pub(crate) fn verif_windows(&self) -> Vec<(ChitchatId, usize, f64, Option<f64>)> {
+        self.node_samples
+            .iter()
+            .map(|(chitchat_id, window)| {
+                (
+                    chitchat_id.clone(),
+                    window.intervals.len(),
+                    window.intervals.sum(),
+                    window
+                        .last_heartbeat
+                        .map(|last_heartbeat| last_heartbeat.elapsed().as_secs_f64()),
+                )
+            })
+            .collect()
+    }
+}
+
 /// The failure detector config struct.
 #[derive(Debug, Clone, Serialize, Deserialize)]
 pub struct FailureDetectorConfig {
